@@ -1,1 +1,111 @@
-// harness module (child of the mirrored module)
+// Contracts and proof harnesses for contracts/axelar-operators/src/contract.rs.
+use super::*;
+use soroban_sdk::shim::{self, inst, pers, temp, Wordy, Words, OWNER_KEY};
+
+type O = AxelarOperators;
+
+fn op_key(a: &Address) -> DataKey {
+    DataKey::Operators(a.clone())
+}
+
+#[kani::proof]
+fn c17_execute() {
+    let env = Env::default();
+    let _h = shim::fresh_host();
+    let (operator, target) = (Address::symbolic(), Address::symbolic());
+    let func = Symbol::symbolic();
+    // arguments: a vector of arbitrary length and content (only forwarded)
+    let args: Vec<Val> = Vec::abstract_symbolic();
+
+    let r = O::execute(env.clone(), operator.clone(), target.clone(), func.clone(), args.clone());
+
+    let is_op = inst().pre_has(&op_key(&operator));
+    assert!(shim::authed(&operator), "OBL C07.execute_needs_operator_auth: a call is forwarded in an operator's name only under that operator's own authorisation");
+    match r {
+        Ok(v) => {
+            assert!(is_op, "OBL C17.only_current_operators: the caller is in the operator set at that moment");
+            let c = shim::call(0);
+            assert!(
+                shim::n_calls() == 1 && c.callee == target.0 && c.func == func.0 && c.args == Words::of(&args),
+                "OBL C17.forwarded_intact_once: exactly one call, to exactly the named contract and function with the arguments unchanged"
+            );
+            assert!(shim::call_ret::<Val>(0) == v, "OBL C17.result_handed_back_unchanged");
+            assert!(shim::auth_seq(&operator) < shim::call_seq(0), "OBL C17.auth_before_forward");
+            assert!(inst().n_changed() == 0 && pers().n_changed() == 0 && temp().n_changed() == 0 && shim::n_events() == 0, "OBL C17.execute_frame");
+            kani::cover!(true, "COVER execute ok");
+        }
+        Err(e) => {
+            assert!(!is_op && e == ContractError::NotAnOperator, "OBL C17.execute_err_only_non_operator");
+            assert!(shim::no_effects(), "OBL C17.refused_execute_no_effect: nothing is forwarded for a non-operator");
+            kani::cover!(true, "COVER execute err");
+        }
+    }
+}
+
+#[kani::proof]
+fn c17_add_operator() {
+    let env = Env::default();
+    let _h = shim::fresh_host();
+    let a = Address::symbolic();
+    let r = O::add_operator(env.clone(), a.clone());
+    let owner: Option<Address> = inst().pre(&OWNER_KEY);
+    let was = inst().pre_has(&op_key(&a));
+    assert!(matches!(&owner, Some(o) if shim::authed(o)), "OBL C06.add_operator_needs_owner: the operator set changes only under the authorisation of the owner stored at entry");
+    match r {
+        Ok(()) => {
+            assert!(!was && inst().post_has(&op_key(&a)), "OBL C17.add_absent_to_present: only an absent address is added");
+            assert!(inst().changed_only(&[Words::of(&op_key(&a))]) && pers().n_changed() == 0 && shim::n_calls() == 0, "OBL C17.add_frame: no other member changes");
+            assert!(matches!(&owner, Some(o) if shim::auth_seq(o) < inst().first_write_seq()), "OBL C06.add_operator_auth_first");
+            assert!(shim::n_events() == 1 && shim::event_is(0, &(Symbol::new(&env, "operator_added"), a.clone()), &()), "OBL C17.add_event");
+            kani::cover!(true, "COVER add_operator ok");
+        }
+        Err(e) => {
+            assert!(was && e == ContractError::OperatorAlreadyAdded, "OBL C17.add_err_only_if_present");
+            assert!(shim::no_effects(), "OBL C17.refused_add_no_effect");
+            kani::cover!(true, "COVER add_operator err");
+        }
+    }
+}
+
+#[kani::proof]
+fn c17_remove_operator() {
+    let env = Env::default();
+    let _h = shim::fresh_host();
+    let a = Address::symbolic();
+    let r = O::remove_operator(env.clone(), a.clone());
+    let owner: Option<Address> = inst().pre(&OWNER_KEY);
+    let was = inst().pre_has(&op_key(&a));
+    assert!(matches!(&owner, Some(o) if shim::authed(o)), "OBL C06.remove_operator_needs_owner");
+    match r {
+        Ok(()) => {
+            assert!(was && !inst().post_has(&op_key(&a)), "OBL C17.remove_present_to_absent: only a present address is removed");
+            assert!(inst().changed_only(&[Words::of(&op_key(&a))]) && pers().n_changed() == 0 && shim::n_calls() == 0, "OBL C17.remove_frame");
+            assert!(matches!(&owner, Some(o) if shim::auth_seq(o) < inst().first_write_seq()), "OBL C06.remove_operator_auth_first");
+            assert!(shim::n_events() == 1 && shim::event_is(0, &(Symbol::new(&env, "operator_removed"), a.clone()), &()), "OBL C17.remove_event");
+            kani::cover!(true, "COVER remove_operator ok");
+        }
+        Err(e) => {
+            assert!(!was && e == ContractError::NotAnOperator, "OBL C17.remove_err_only_if_absent");
+            assert!(shim::no_effects(), "OBL C17.refused_remove_no_effect");
+            kani::cover!(true, "COVER remove_operator err");
+        }
+    }
+}
+
+#[kani::proof]
+fn c17_is_operator_and_ctor() {
+    let env = Env::default();
+    let _h = shim::fresh_host();
+    let a = Address::symbolic();
+    let r = O::is_operator(env.clone(), a.clone());
+    assert!(r == inst().pre_has(&op_key(&a)), "OBL C17.query_agrees_with_set");
+    assert!(shim::no_effects() && shim::n_auth() == 0, "OBL C17.query_pure");
+    let owner = Address::symbolic();
+    O::__constructor(env.clone(), owner.clone());
+    assert!(inst().post::<_, Address>(&OWNER_KEY) == Some(owner) && inst().changed_only(&[Words::of(&OWNER_KEY)]), "OBL C17.ctor_sets_owner_only: the operator set starts as it was (empty on a fresh contract)");
+    kani::cover!(r, "COVER is_operator true");
+    kani::cover!(!r, "COVER is_operator false");
+}
+
+soroban_sdk::harness_ownable!(AxelarOperators, c06_operators_transfer_ownership);
+soroban_sdk::harness_upgradable!(AxelarOperators, ContractError, c15_operators_upgrade, c15_operators_migrate);
